@@ -1220,7 +1220,10 @@ class Sim:
         if "std::iter::Iterator::map" in names and len(args) == 2 and self._followable(d0) \
                 and isinstance(args[1], (Closure, FnItem)):
             return [cont(Adt("sim::Map", 0, [Ref([d0], 0, ()), args[1]]))]
-        if "std::iter::Iterator::next" in names and len(args) == 1 and isinstance(d0, Adt) and d0.adt == "sim::Map" \
+        if "std::iter::Iterator::enumerate" in names and len(args) == 1 and self._followable(d0):
+            return [cont(Adt("sim::Enumerate", 0, [Ref([d0], 0, ()), 0]))]
+        if "std::iter::Iterator::next" in names and len(args) == 1 and isinstance(d0, Adt) \
+                and d0.adt in ("sim::Map", "sim::Enumerate") \
                 and isinstance(args[0], Ref):
             def got(rv, sp, e, tr):
                 return [cont(rv if rv is not None else UNK, sp, e)]
@@ -1545,6 +1548,17 @@ class Sim:
                 item = elems[i] if len(it.fields) > 2 else Ref([elems[i]], 0, ())
                 return contm(Adt("std::option::Option", 1, [item]), path, env, lambda v: v)
             return contm(Adt("std::option::Option", 0, []), path, env, lambda v: v)
+        if it.adt == "sim::Enumerate":
+            def after_counted(rv, sp, e, tr):
+                if not isinstance(rv, Adt):
+                    return contm(None, sp, e, tr)
+                if rv.variant == 0:
+                    return contm(rv, sp, e, tr)
+                me = self._deref(tr(itref), sp)
+                n = me.fields[1]
+                me.fields[1] = n + 1
+                return contm(Adt("std::option::Option", 1, [Tup([n, rv.fields[0]])]), sp, e, tr)
+            return self._iter_next(fn, env, bb, t, path, depth, it.fields[0], after_counted)
         if it.adt == "sim::Map":
             inner_cell, f = it.fields[0], it.fields[1]
 
@@ -1585,7 +1599,7 @@ class Sim:
         return self._iter_next(fn, env, bb, t, path, depth, itref, step)
 
     def _followable(self, v):
-        return isinstance(v, Adt) and (v.adt in ("sim::SliceIter", "sim::Map") or self._local_next(v.adt) is not None)
+        return isinstance(v, Adt) and (v.adt in ("sim::SliceIter", "sim::Map", "sim::Enumerate") or self._local_next(v.adt) is not None)
 
     def _local_next(self, self_ty):
         """The local `Iterator::next` implementation for an iterator type, if any."""
